@@ -22,14 +22,28 @@ META = {
             "The model is tied to both code generators by differential execution of echo contracts on canonical "
             "encodings and a structured corruption stream (every word replaced by boundary values/offset targets, "
             "truncation at every word boundary, extension, dirty padding) through calldata arguments, abi_decode and "
-            "external-call return data (exact accept/reject and echoed value) and constructor arguments.",
+            "external-call return data (exact accept/reject and echoed value) and constructor arguments.  "
+            "Extension (calldata / code sources): implementation-level models cdec Legacy / cdec Venom of decoding from "
+            "call data and from the data section of init code (wrapping pointer arithmetic, non-wrapping EVM copies, "
+            "bulk copies, per-implementation copy start) are proved equal to the follow decoder for every pointer and "
+            "every region < 2^64 bytes (cd_impl_refines_model), hence strict (cd_sound_lv, code_sound_lv), complete on "
+            "canonical encodings (cd_complete_lv, code_complete_lv) and identical across the two generators; the code "
+            "both generators emit for such sources is matched syntactically against Coq template generators over the "
+            "shape family (TieDecC, vm_compute) and the observed templates are executed in Coq on canonical and "
+            "corrupted regions against the model on every run.",
     "level_note": "Theorems are about the model (Dec.v/Abi.v): one acceptance model for both decoders, tied by sampled "
                   "differential execution (exact accept/reject and value for calldata, abi_decode and returndata; "
                   "one-directional for constructor arguments), not by a proof about the code generators.  For memory "
                   "payloads the model includes the `hi` bound discipline and dec_reads_inside shows accepted payloads "
                   "never depend on bytes beyond them.  needs_clamp is a hand model compared with both real copies on "
-                  "every generated type.  Trusted: Coq kernel + vm_compute, pyrevm.",
-    "technique": "Coq proof over hand-written decoder model + differential correspondence with corruption stream",
+                  "every generated type.  Calldata/code extension: the template generators (TplDecC.v) are tied "
+                  "syntactically (114 shapes x 2 generators, both sources, two argument positions) and by execution in a "
+                  "Coq evaluator with EVM calldataload/calldatacopy/codecopy semantics, not by a semantic proof "
+                  "generator = cdec; the entry glue (_register_function_args, _register_positional_args, ...) is "
+                  "mimicked by the exporter and pinned by AST hash; cdec abstracts reading the copied bytes back from "
+                  "memory.  Trusted: Coq kernel + vm_compute, pyrevm.",
+    "technique": "Coq proof over hand-written decoder model + differential correspondence with corruption stream; "
+                 "O-tie of decoder templates (memory, calldata and code sources) + templates executed in Coq",
 }
 
 
